@@ -37,7 +37,27 @@ ASSUMPTIONS = [
     'key combinations the programs draw']
 
 SCALES = {'major': [0, 2, 4, 5, 7, 9, 11], 'minor': [0, 2, 3, 5, 7, 8, 10],
-          'penta': [0, 2, 4, 7, 9]}
+          'penta': [0, 2, 4, 7, 9],
+          # degrees index the steps of a tuning that is not 12-tone
+          'et19': [0, 3, 6, 8, 11, 14, 17], 'et7': [0, 1, 2, 3, 4, 5, 6],
+          'bp': [0, 2, 4, 6, 8, 10, 12]}
+# name -> (number of tuning steps, octave ratio); default 12-tone, ratio 2
+TUNINGS = {'et19': (19, 2.0), 'et7': (7, 2.0), 'bp': (13, 3.0)}
+
+
+def make_scale(name):
+    import sc3.seq.scale as scl
+    if name not in TUNINGS:
+        return scl.Scale(SCALES[name])
+    n, ratio = TUNINGS[name]
+    semis = 12.0 * math.log2(ratio) / n
+    return scl.Scale(SCALES[name],
+                     scl.Tuning(tuple(i * semis for i in range(n)), ratio))
+
+
+def steps_per_octave(name):
+    n, ratio = TUNINGS.get(name, (12, 2.0))
+    return math.log2(ratio) * n, ratio
 INSTR = {
     # name -> (control names in slot order, has_gate)
     'default': (['freq', 'index', 'fmh', 'amp', 'pan', 'gate'], True),
@@ -63,7 +83,8 @@ def gen_keys(tp, full=True):
     elif k == 2:
         ev['note'] = tp.choice([0, 2, 7, -3, 14])
         mods = [('gtranspose', [1, -1.5], 5), ('ctranspose', [12, -7], 5),
-                ('octave', [4, 6, 3], 4), ('root', [2, -1], 5)]
+                ('octave', [4, 6, 3], 4), ('root', [2, -1], 5),
+                ('scale', list(SCALES), 5)]
     elif k < 5:
         ev['degree'] = tp.choice([0, 1, 2, 4, 7, -1, -8, 9])
         mods = [('mtranspose', [1, -2, 3], 4), ('gtranspose', [1, -1.5], 6),
@@ -103,8 +124,6 @@ def gen_bind(tp):
     keys = {}
     base = gen_keys(tp, full=False)
     for k, v in base.items():
-        if k == 'scale':
-            continue
         # a list (Pseq) of varying values, or a constant
         if tp.draw(2) and isinstance(v, (int, float)):
             keys[k] = [v + i * (1 if k in ('degree', 'note', 'midinote')
@@ -251,9 +270,9 @@ def dbamp(db):
     return 10.0 ** (db / 20.0)
 
 
-def degree_to_key(scale, degree):
+def degree_to_key(scale, degree, spo=12):
     n = len(scale)
-    return 12 * (degree // n) + scale[int(degree) % n]
+    return spo * (degree // n) + scale[int(degree) % n]
 
 
 def resolve(ev):
@@ -261,6 +280,7 @@ def resolve(ev):
     freq (detuned), amp, delta, sustain"""
     g = ev.get
     scale = SCALES[g('scale', 'major')]
+    spo, ratio = steps_per_octave(g('scale', 'major'))
     if 'freq' in ev:
         freq = ev['freq']
     else:
@@ -271,9 +291,11 @@ def resolve(ev):
                 note = ev['note']
             else:
                 note = degree_to_key(scale, g('degree', 0)
-                                     + g('mtranspose', 0))
-            midinote = ((note + g('gtranspose', 0.0) + g('root', 0.0)) / 12.0
-                        + g('octave', 5.0) - 5.0) * 12.0 + 60
+                                     + g('mtranspose', 0), spo)
+            # steps of the tuning -> octaves -> semitones
+            midinote = ((note + g('gtranspose', 0.0) + g('root', 0.0)) / spo
+                        + g('octave', 5.0) - 5.0) \
+                * (12.0 * math.log2(ratio)) + 60
         freq = midicps(midinote + g('ctranspose', 0.0))
     freq0 = freq                      # what a lookup of 'freq' returns
     freq = freq * g('harmonic', 1.0) + g('detune', 0.0)   # what is played
@@ -407,7 +429,7 @@ def build_pattern(p):
         d = {}
         for kk, v in p[1].items():
             if kk == 'scale':
-                d[kk] = scl.Scale(SCALES[v])
+                d[kk] = make_scale(v)
             elif isinstance(v, list):
                 d[kk] = Pseq([Rest(x[1]) if isinstance(x, list) else x
                               for x in v])
@@ -439,7 +461,7 @@ def make_event(ev):
     d = {}
     for k, v in ev.items():
         if k == 'scale':
-            d[k] = scl.Scale(SCALES[v])
+            d[k] = make_scale(v)
         elif isinstance(v, list):
             d[k] = Rest(v[1])
         else:
